@@ -18,9 +18,8 @@ import LinVerif.Util.Map
 namespace LinVerif.MetricBlock
 open LinVerif.Map
 
-abbrev SeriesId := Nat
-abbrev FieldId := Nat
-abbrev Slot := Nat
+/-! Series ids, field ids and slots are natural numbers (`Nat` is written directly, so that `omega`
+sees plain arithmetic): in the signatures below `s` is a series id, `f` a field id, `t` a slot. -/
 
 /-- `field.Type` without `Unknown` (codes 1..6). -/
 inductive FieldType
@@ -70,26 +69,26 @@ def FieldType.orderFree : FieldType → Bool
 
 structure Block (V : Type) where
   /-- field metas `(id, type)` in stored order -/
-  fields : List (FieldId × FieldType)
+  fields : List (Nat × FieldType)
   /-- slot range of the footer (inclusive) -/
-  start : Slot
-  stop : Slot
+  start : Nat
+  stop : Nat
   /-- series id ↦ field id ↦ slot ↦ value. A field id without entry = `FlushField(nil)`. -/
-  series : List (SeriesId × List (FieldId × List (Slot × V)))
+  series : List (Nat × List (Nat × List (Nat × V)))
 
 namespace Block
 variable {V : Type}
 
 /-- `reader.GetFields()` looked up by id (`field.Metas.GetFromID`, `fieldIndexes()`) -/
-def fieldType? (b : Block V) (f : FieldId) : Option FieldType := lookup b.fields f
+def fieldType? (b : Block V) (f : Nat) : Option FieldType := lookup b.fields f
 
 /-- `reader.GetSeriesIDs()` -/
-def seriesIds (b : Block V) : List SeriesId := keys b.series
+def seriesIds (b : Block V) : List Nat := keys b.series
 
 /-- `dataScanner.scan(highKey, lowSeriesID)` followed by `fieldReader.GetFieldData(fieldID)`:
 the field's data of one series, `none` if the series is not in the block, the field id is not
 one of the block's fields, or the field was flushed without data. -/
-def fieldData (b : Block V) (s : SeriesId) (f : FieldId) : Option (List (Slot × V)) :=
+def fieldData (b : Block V) (s : Nat) (f : Nat) : Option (List (Nat × V)) :=
   match lookup b.series s with
   | none => none
   | some e =>
@@ -99,7 +98,7 @@ def fieldData (b : Block V) (s : SeriesId) (f : FieldId) : Option (List (Slot ×
 
 /-- the value a decoder positioned on the block's slot range yields for slot `t`
 (`TSDDecoder.ResetWithTimeRange(data, start, end)` + `HasValueWithSlot`/`Value`). -/
-def get (b : Block V) (s : SeriesId) (f : FieldId) (t : Slot) : Option V :=
+def get (b : Block V) (s : Nat) (f : Nat) (t : Nat) : Option V :=
   match b.fieldData s f with
   | none => none
   | some vals => if b.start ≤ t ∧ t ≤ b.stop then lookup vals t else none
